@@ -282,6 +282,11 @@ def _run_point(case, ctx):
                 spec["extra"][col] = spec["extra"][col][::-1]
     if "Aux col" in spec["extra"]:
         spec["extra"]["Aux_col"] = spec["extra"].pop("Aux col")  # keys without blank (domain)
+    if case["seed"] % 4 == 2 and spec["units"]["pressure_mode"] == "absolute":
+        # a reading at exactly zero pressure (the origin point first, or a branch pumped down to vacuum last)
+        k0 = 0 if spec["branch"][0] == 0 else n - 1
+        spec["pressure"][k0], spec["loading"][k0] = 0.0, 0.0
+        ctx.count("point_data", "%s/reading-at-zero-pressure" % fmt)
     gaps = False
     if fmt in ("csv", "excel") and case["seed"] % 4 == 1 and spec["extra"] and n >= 3:
         # a numeric extra column with a gap (a calorimeter signal that was not recorded at every point): the column stays numeric,
